@@ -287,6 +287,24 @@ func checkC03(c *BuildCase) []Violation {
 				checkC03Format(f, d, &vs)
 			}
 		}
+		if len(vs) == 0 && c.Again {
+			// history: the same paths are packaged again in this process after every file was rewritten with new
+			// bytes of the same length and its times put back; what the package says about itself must describe
+			// what it ships now
+			c2 := rewriteSources(c, root)
+			c2.Again = false
+			b2 := buildAll(c2, root, "C03", &vs)
+			for _, f := range c2.formats() {
+				if d := b2.decoded[f]; d != nil {
+					var again vlist
+					checkC03Format(f, d, &again)
+					for _, v := range again {
+						v.Detail = "second packaging of the same paths after an equal-length rewrite: " + v.Detail
+						vs = append(vs, v)
+					}
+				}
+			}
+		}
 		return nil
 	})
 	if err != nil {
@@ -325,7 +343,11 @@ func TestC03(t *testing.T) {
 		if rapid.IntRange(0, 5).Draw(rt, "changelog?") == 0 {
 			addChangelog(c, 2)
 		}
+		c.Again = rapid.IntRange(0, 2).Draw(rt, "again") == 0
 		labels, _, _ := classifyBuildCase(c)
+		if c.Again {
+			labels = append(labels, "packaged-again-after-equal-length-rewrite")
+		}
 		if len(c.Contents) == 0 {
 			labels = append(labels, "empty-payload")
 		}
